@@ -23,7 +23,9 @@ RULE = (
     "properties file is visible, fails only with 'No channels found') and read over the whole span returns exactly the "
     "model's samples of the finalized files; after the clean close no tmp.* remains and the reader returns the whole "
     "model. A drawn subset of points is executed as a real SIGKILL and the resulting tree compared with the paused "
-    "snapshot. Exhaustive over the points of each generated sequence. Non-trivial point: a finalized file and an open "
+    "snapshot; after each real kill the recorder is restarted on that tree (inside the killed file period when a tmp. "
+    "file was left, else after the data): finalized files must stay byte-identical, every final-named file valid, and a "
+    "reader must return only samples of one of the two sessions. Exhaustive over the points of each generated sequence. Non-trivial point: a finalized file and an open "
     "tmp. file coexist, or the point lies between a close and its rename (distinct_nontrivial counts such points, "
     "which are distinct by construction within a sequence, plus the sequences with >= 30 % of them)."
 )
@@ -259,12 +261,111 @@ def run_case(case):
             else:
                 res.cls("kill-validated")
             res.evaluations += 1
+            if rck == -9:
+                _restart_after_kill(case, judge, kd, kch, k, fail, res)
             shutil.rmtree(kd, ignore_errors=True)
         res.nontrivial = judge.nt_points * 10 >= judge.points * 3
         res.nt_units = judge.nt_points
         res.cls("writer:" + case["writer"])
         res.classes.append("points:%d" % 0) if False else None
     return res
+
+
+def _restart_after_kill(case, judge, kd, kch, k, fail, res):
+    """The recorder is restarted on the tree a kill left behind (new session, inside the period of the file that was
+    open at the kill if there is one, else right after the data): whatever the restarted writer does, files finalized
+    before must stay byte-identical and everything under a final name must be a valid, truthful file."""
+    cfg = case["cfg"]
+    finals0, tmps0 = final_files(kch)
+    before = treeutil.snapshot(kch)
+    m1 = judge.m
+    spf = rfmodel.samples_per_file_max(cfg)
+    stale = [t for t in tmps0 if "/" in t and t.split("/")[1].startswith("tmp.rf@")]
+    if stale:
+        st_ = stale[-1].split("@")[1]
+        ms = int(st_.split(".")[0]) * 1000 + int(st_.split(".")[1])
+        lo, hi = rfmodel.window(cfg, ms)
+        start2 = lo + (hi - lo) // 2
+        res.cls("restart-in-killed-period")
+    else:
+        mb = m1.bounds()
+        start2 = (mb[1] + 1 + spf) if mb else cfg["start"]
+    cfg2 = dict(cfg, start=start2, salt=cfg["salt"] + 17, uuid="restarted")
+    ops2 = [{"op": "w", "idx": 0, "len": max(1, spf // 3)}, {"op": "w", "idx": 2 * spf + 1, "len": max(1, spf // 2)}]
+    if k % 2 == 0:
+        ops2 = ops2[:1]  # the restarted session only tries the killed period and is closed again
+    rc, ev, err = rfharness.run_driver(cfg2, ops2, kch, kd)
+    dr = rfharness.driver_results(ev, len(ops2))
+    where = "restart after kill at op %d (start %d)" % (k, start2)
+    if rc != 0 and not (dr and max(dr) == len(ops2) + 1):
+        fail("restarted-writer-crashed", "%s: rc=%s %s" % (where, rc, err[-300:]))
+        return
+    m2 = rfmodel.Model(cfg2)
+    accepted = {}
+    for j, op in enumerate(ops2):
+        if dr.get(j + 1, {}).get("rc") == 0:
+            mm = rfmodel.Model(cfg2)
+            mm.call = j
+            mm.apply(dict(op, cid=j))
+            e2, _f2 = __import__("checks.c09", fromlist=["model_map"]).model_map(cfg2, mm, None)
+            accepted.update(e2)
+    after = treeutil.snapshot(kch)
+    for rel in finals0:
+        if rel not in after or after[rel][2] != before[rel][2]:
+            fail("finalized-file-changed-by-restart", "%s: %s" % (where, rel))
+    finals1, tmps1 = final_files(kch)
+    info, _ = rfharness.raw_files(kch)
+    for rel in finals1:
+        fi = info.get(rel)
+        if fi is None or "error" in fi:
+            fail("unreadable-final-file-after-restart", "%s: %s %s" % (where, rel, fi and fi.get("error")))
+            continue
+        r = Result()
+        c06.check_structure(cfg, rel, fi, r, "")
+        for sg, d in r.failures:
+            fail("final-file-structure-after-restart:" + sg, "%s: %s" % (where, d))
+    # reader: every returned sample belongs to the first or to the restarted session
+    from checks import c09
+    exp1, fills1 = c09.model_map(cfg, m1, None)
+    try:
+        with rfharness.quiet_fds():
+            rd = rfharness.drf().DigitalRFReader(os.path.dirname(kch))
+        lo = min(list(exp1) + list(accepted) + [start2])
+        hi = max(list(exp1) + list(accepted) + [start2])
+        got = c09.full_pass(cfg, _SpanModel(lo, hi), rd, lambda sg, d: fail("reader-after-restart:" + sg, "%s: %s" % (where, d)), where, [0, 0])
+        rd.close()
+        cont_fill = cfg["cont"] and not rfmodel.chunked(cfg)
+        for idx, v in (got or {}).items():
+            if idx in accepted:
+                if v != accepted[idx] and not cont_fill:
+                    fail("wrong-value-after-restart", "%s: index %d" % (where, idx))
+                    break
+            elif idx in exp1:
+                if v != exp1[idx] and idx not in fills1:
+                    fail("wrong-value-after-restart", "%s: index %d" % (where, idx))
+                    break
+            elif not cont_fill:
+                fail("unwritten-sample-after-restart", "%s: index %d readable but written by neither session" % (where, idx))
+                break
+        missing = [i for i in accepted if i not in (got or {})]
+        if missing:
+            fail("restarted-session-lost-samples", "%s: %d accepted samples unreadable, first %d" % (where, len(missing), min(missing)))
+    except ValueError as e:
+        if os.path.exists(os.path.join(kch, "drf_properties.h5")) or "No channels found" not in str(e):
+            fail("reader-after-restart:open:ValueError", "%s: %s" % (where, e))
+    except Exception as e:
+        fail("reader-after-restart:open:%s" % type(e).__name__, "%s: %s" % (where, e))
+    res.evaluations += 1
+
+
+class _SpanModel:
+    """Minimal stand-in giving full_pass the span to read."""
+
+    def __init__(self, lo, hi):
+        self._b = (lo, hi)
+
+    def bounds(self):
+        return self._b
 
 
 def shrink_candidates(case):
